@@ -21,7 +21,7 @@ BLOCK = 400
 STREAM_ORDER = ['ops', 'wall']
 RULE = ('seeded sequences (<=40) of start/stop/speed=/time=/read/execute_once on a real SimulatedClock whose '
         'wall-time source is scripted by the simulator (increments drawn from {0,1/64,1/4,1,3,64,4096}, in mode 2 '
-        'also between the reads inside one operation); non-trivial = the run read the clock while it was running '
+        'also between the reads inside one operation); a second interpreter runs on a SynchronizedClock that follows the first and is stepped now and then, and a SynchronizedClock on that second interpreter must show its last step time; non-trivial = the run read the clock while it was running '
         'after a speed change or an assignment and saw at least one rejected assignment or a speed-0 period; '
         'distinct = distinct operation sequence (kind+argument, mode)')
 COMPONENTS = {'real': ['sismic.clock.SimulatedClock', 'sismic.clock.SynchronizedClock', 'sismic.interpreter.Interpreter'],
@@ -89,7 +89,7 @@ def _set_arg(ops, t):
     return t - ops.pick([F(1, 64), F(1, 4)])
 
 
-OPS = [('read', 4), ('start', 2), ('stop', 2), ('speed', 2), ('set', 3), ('step', 2)]
+OPS = [('read', 4), ('start', 2), ('stop', 2), ('speed', 2), ('set', 3), ('step', 2), ('fstep', 1)]
 
 
 def _run_exact(res, ops, wall, tier):
@@ -98,6 +98,11 @@ def _run_exact(res, ops, wall, tier):
     t, running, speed = F(0), False, F(1)
     interp = Interpreter(_chart(), clock=clock)
     sync = SynchronizedClock(interp)
+    # a second interpreter driven by a SynchronizedClock on the first, and a SynchronizedClock following that one: it shows
+    # the time of the follower's last step, not the time of whatever the follower itself follows
+    follower = Interpreter(_chart(), clock=SynchronizedClock(interp))
+    sync2 = SynchronizedClock(follower)
+    follower_last = F(follower.time)
     at_start = []
     interp.attach(lambda me: at_start.append((me.time, sync.time)) if me.name == 'step started' else None)
     last_step_time = F(0)
@@ -155,8 +160,20 @@ def _run_exact(res, ops, wall, tier):
             if F(interp.time) != t or (ms is not None and F(ms.time) != t):
                 return res.fail('step-time', 'interpreter time %r / MacroStep.time %r for a step at clock %r'
                                 % (interp.time, ms and ms.time, float(t)), trace=trace)
+        elif op == 'fstep':
+            follower.queue('e')
+            fms = follower.execute_once()
+            follower_last = last_step_time
+            if F(follower.time) != follower_last or (fms is not None and F(fms.time) != follower_last):
+                return res.fail('synchronized-clock', 'an interpreter on a SynchronizedClock stepped at time %r, the interpreter it follows '
+                                'last stepped at %r' % (follower.time, float(follower_last)), trace=trace)
         trace.append((op, None if arg is None else float(arg), float(d)))
         res.stats['op_' + op] += 1
+        if F(sync2.time) != follower_last or sync2.time != follower.time:
+            return res.fail('synchronized-clock', 'a SynchronizedClock on the following interpreter reads %r; that interpreter last stepped at %r '
+                            '(the interpreter it follows itself is at %r)' % (sync2.time, float(follower_last), interp.time), trace=trace)
+        if follower_last != last_step_time:
+            res.stats['chained_synchronized_clock_checked_while_the_two_interpreters_differ'] += 1
         v = clock.time
         if F(v) != t:
             return res.fail('read-differs-from-reference',
@@ -186,6 +203,8 @@ def _run_relaxed(res, ops, wall, tier):
     running = False
     interp = Interpreter(_chart(), clock=clock)
     sync = SynchronizedClock(interp)
+    follower = Interpreter(_chart(), clock=SynchronizedClock(interp))
+    sync2 = SynchronizedClock(follower)
     last_read = F(clock.time)
     frozen = last_read       # value a stopped clock must keep showing (None while running)
     trace = []
@@ -258,6 +277,15 @@ def _run_relaxed(res, ops, wall, tier):
             if ms is not None and ms.time != interp.time:
                 return res.fail('step-time', 'MacroStep.time %r != interpreter.time %r' % (ms.time, interp.time), trace=trace)
             last_read = max(last_read, F(interp.time))
+        elif op == 'fstep':
+            follower.queue('e')
+            follower.execute_once()
+            if follower.time != interp.time:
+                return res.fail('synchronized-clock', 'an interpreter on a SynchronizedClock stepped at time %r, the interpreter it follows '
+                                'last stepped at %r' % (follower.time, interp.time), trace=trace)
+        if sync2.time != follower.time:
+            return res.fail('synchronized-clock', 'a SynchronizedClock on the following interpreter reads %r; that interpreter last stepped at %r'
+                            % (sync2.time, follower.time), trace=trace)
         trace.append((op, None if arg is None else float(arg), float(d)))
         res.stats['op_' + op] += 1
         if read('after ' + op):
